@@ -1315,8 +1315,10 @@ class Analysis(object):
                 if t[2] == "closure":
                     out |= self._invoke(fr, f, a, kwargs, e, closure_env=fr.env)
                     continue
-                if t[2] is not None:
+                if t[2] is not None and not f.is_staticmethod:
                     a = [frozenset([t[2]])] + a
+                elif t[2] is not None:
+                    pass  # a static method looked up through an instance takes no receiver
                 elif f.cls is not None and not f.is_staticmethod and f.is_classmethod:
                     a = [frozenset([("C", f.cls.qualname)])] + a
                 self.stats["resolved"] += 1
